@@ -5,6 +5,9 @@ VERIF = os.path.dirname(os.path.dirname(os.path.abspath(__file__)))
 
 ALL = ["C%02d" % i for i in range(1, 19)]
 
+# checks the lead has integrated and run green on /repo (fragments of others are ignored until then)
+ENABLED = ["C03", "C05", "C06", "C11", "C16"]
+
 CHECKS = {
  "C03": dict(
     engine="tlc+go-replay",
@@ -30,7 +33,8 @@ _fd = os.path.join(VERIF, "tools", "manifest")
 if os.path.isdir(_fd):
     for _f in sorted(os.listdir(_fd)):
         if _f.endswith(".json"):
-            CHECKS[_f[:-5].upper()] = json.load(open(os.path.join(_fd, _f)))
+            if _f[:-5].upper() in ENABLED:
+                CHECKS[_f[:-5].upper()] = json.load(open(os.path.join(_fd, _f)))
 
 NOT_YET = "check not built yet in this revision (planned in DESIGN.md section 4)"
 
